@@ -53,7 +53,7 @@ Lemma step_fs : forall fs (d : document) o, fst (fst (step (fs, d) o)) = fs \/
   exists t pk pty f, o = OSave t pk pty /\ fst (fst (step (fs, d) o)) = upsert (tgt_id t) f fs.
 Proof.
   intros fs d o. unfold Package.step.
-  destruct o as [p b|p m'|n|n|n x'|n b|n|n b m|n b m|t pk pty|].
+  destruct o as [p b|p m'|n|n|n x'|n b|n|n b m|n b m|t pk pty| |sc sx imgs].
   - left. destruct (c_open _ _ _ _ _); reflexivity.
   - left. destruct (c_new _ _ _ _ _ _ _ _ _ _ _ _); reflexivity.
   - left. destruct (is_xml n); [reflexivity|]. destruct (c_get_part _ _ _ _ _ _); reflexivity.
@@ -72,6 +72,7 @@ Proof.
     right. unfold Package.c_save in CS.
     destruct pk; [destruct (save_zip _ _)|destruct t|destruct (lookup MIMETYPE _)]; inversion CS; subst; cbn [fst snd]; eauto 8.
   - left. reflexivity.
+  - left. destruct (d_merge _ _ _ _ _ _ _ _ _ _ _ _); reflexivity.
 Qed.
 
 (* the part map of a document depends on the file system only through the file it was opened from *)
@@ -120,10 +121,10 @@ Definition respects (p0 : option Z) (a : side * op xml bytes) : Prop :=
   match a with (OnClone, OSave t _ _) => p0 <> Some (tgt_id t) | _ => True end.
 
 Lemma step_cpath_original : forall fs (d : document) o, SInv (fs, d) ->
-  match o with OOpen _ _ | ONew _ _ | OClone => True | _ => cpath _ (cont _ _ (snd (fst (step (fs, d) o)))) = cpath _ (cont _ _ d) end.
+  match o with OOpen _ _ | ONew _ _ | OClone | OMerge _ _ _ => True | _ => cpath _ (cont _ _ (snd (fst (step (fs, d) o)))) = cpath _ (cont _ _ d) end.
 Proof.
   intros fs d o [F W]. cbn [fst snd] in *. unfold Package.step.
-  destruct o as [p b|p m'|n|n|n x'|n b|n|n b m|n b m|t pk pty|]; try exact I.
+  destruct o as [p b|p m'|n|n|n x'|n b|n|n b m|n b m|t pk pty| |sc sx imgs]; try exact I.
   - destruct (is_xml n); [reflexivity|].
     pose proof (c_get_part_sem bytes kid fs n (cont _ _ d) (wfd_c _ _ _ _ _ W)) as [_ [_ [_ [G4 _]]]].
     destruct (Package.c_get_part bytes kid FIXED fs n (cont _ _ d)) as [c' ob]. exact G4.
